@@ -98,6 +98,14 @@ fn run(ctx: &mut Ctx) {
     progu_case(ctx, vec![Instruction::Gate(Gate { name: "X".into(), parameters: vec![], qubits: fixed(&[0, 1]), modifiers: vec![GateModifier::Controlled] }), plain("X", vec![], &[1])], 2);
     progu_case(ctx, vec![Instruction::Gate(Gate { name: "RZ".into(), parameters: vec![real(0.7)], qubits: fixed(&[2]), modifiers: vec![GateModifier::Dagger] }), plain("RZ", vec![real(0.7)], &[2])], 3);
     progu_case(ctx, vec![Instruction::Gate(Gate { name: "RX".into(), parameters: vec![real(0.1), real(0.2)], qubits: fixed(&[0, 1]), modifiers: vec![GateModifier::Forked] }), plain("RX", vec![real(0.2)], &[1])], 2);
+    // known finding (C12/is-zero-tolerance showing through a gate parameter): sin(pi) ≈ 1.2e-16 is flushed to 0 by the
+    // simplifier, so the angle sqrt((pi+2)*sin(pi)) ≈ 2.5e-8 becomes 0 and RX returns exactly I
+    {
+        use quil_rs::expression::{ExpressionFunction as F, InfixOperator as I};
+        use qvh::expr::{call, infix};
+        let e = call(F::SquareRoot, infix(infix(Expression::PiConstant(), I::Plus, real(2.0)), I::Star, call(F::Sine, Expression::PiConstant())));
+        gate_case(ctx, "RX", vec![e], fixed(&[0]), 1);
+    }
     // unary plus (API only): a seeded fast path that negated every prefix expression was missed before stream 9
     gate_case(ctx, "RX", vec![qvh::expr::prefix(quil_rs::expression::PrefixOperator::Plus, real(0.7))], fixed(&[0]), 1);
     progu_case(ctx, vec![plain("PSWAP", vec![qvh::expr::prefix(quil_rs::expression::PrefixOperator::Plus, qvh::expr::infix(real(0.5), quil_rs::expression::InfixOperator::Plus, real(0.2)))], &[2, 0])], 3);
